@@ -397,6 +397,31 @@ func DeepCases(k int, seed int64) []EnumCase {
 	return out
 }
 
+// ManyRootsCases draws k injectors with 17-24 input-free providers, almost
+// all Async (more goroutines than any fixed fan-out cap one might think of),
+// and a sink that needs every one of them.
+func ManyRootsCases(k int, seed int64) []EnumCase {
+	r := rand.New(rand.NewSource(seed))
+	var out []EnumCase
+	for i := 0; i < k; i++ {
+		w := 17 + r.Intn(8)
+		n := w + 1
+		cons := make([][]int, n)
+		mask := 0
+		for j := 0; j < w; j++ {
+			cons[j] = []int{w}
+			if r.Intn(12) != 0 {
+				mask |= 1 << j
+			}
+		}
+		if r.Intn(3) == 0 {
+			mask |= 1 << w
+		}
+		out = append(out, EnumCase{N: n, Shape: -9000 - i, Mask: mask, Desc: r.Intn(2) == 0, Cons: cons})
+	}
+	return out
+}
+
 // WideCases draws k wide DAGs: one root (Async or not), 9-14 middle nodes that
 // all need the root (a few also need a neighbour), and a sink that needs every
 // middle node: more goroutines in one injector than any other family has, most
